@@ -25,3 +25,10 @@ package main
 //@   at call Put: assert [C18 runput.pipe-sends-checked-bytes] (putArgs.File == "" && !stdinIsTerminal) ==> (bytes(arg_value) == putText(lastReadBytes) && !putRefused(lastReadBytes) && (len(arg_value) != 0 || putArgs.EmptyOK))
 //@   at call Put: assert [C18 runput.name] arg_name == name
 //@   at call ReadAll: assert [C18 runput.reads-all-of-standard-input] arg_r == os.Stdin
+
+// "setec get": a newline is added only when standard output itself is a terminal; redirected or piped
+// output is exactly the value.
+//@ func runGet(env, name) (err)
+//@   requires env != nil
+//@   at call Fd: assert [C18 runget.only-standard-output-is-examined] arg_f == os.Stdout
+//@   at call Write: assert [C18 runget.redirected-output-is-exactly-the-value] bytes(arg_b) == bytes(val.Value)
